@@ -50,6 +50,8 @@ import tempfile  # noqa: E402
 
 import numpy as np  # noqa: E402
 
+EPS = np.finfo(float).eps
+
 import discretisedfield as df  # noqa: E402
 from dfmon import attach, core  # noqa: E402
 from workloads import gen  # noqa: E402
@@ -435,12 +437,15 @@ def persistence(ctx):
                                 what={"name": k, "spec": spec.describe(), "box": (lo, hi)})
         if not ok:
             continue
-        tol = 1e-9 * spec.cell
+        # 1e-9 cell, plus the resolution of the coordinates themselves (far meshes: one ulp of
+        # a corner 1e7 cells from the origin is 2e-9 cell; the cell size is the difference
+        # of two such corners)
+        tol = 1e-9 * spec.cell + 16 * EPS * np.maximum(np.abs(spec.pmin), np.abs(spec.pmax))
         ctx.check("C14.named_extraction",
                   np.all(np.abs(sub.region.pmin - spec.vertex(lo)) <= tol)
                   and np.all(np.abs(sub.region.pmax - spec.vertex(hi)) <= tol)
                   and np.array_equal(sub.n, hi - lo)
-                  and np.all(np.abs(sub.cell - mesh.cell) <= 1e-9 * spec.cell),
+                  and np.all(np.abs(sub.cell - mesh.cell) <= tol),
                   name=k, got_pmin=sub.region.pmin, got_pmax=sub.region.pmax, got_n=sub.n,
                   box=(lo, hi), spec=spec.describe())
     ctx.expect_raises("C14.named_extraction.unknown_rejected", mesh.__getitem__, "no_such_name")
